@@ -205,10 +205,14 @@ func classify(exp, why, obs []string, r refResult, disabled bool, hooks []hx.Hoo
 }
 
 func opName(o hx.Op) string {
-	if o.DisableHooks {
-		return o.Kind + "[no-hooks]"
+	n := o.Kind
+	if o.KeepHistory {
+		n += "[keep-history]"
 	}
-	return o.Kind
+	if o.DisableHooks {
+		n += "[no-hooks]"
+	}
+	return n
 }
 
 // orderFloors records which ordering situations a selected hook list exercises.
@@ -230,6 +234,10 @@ func orderFloors(c *core.Ctx, hooks []hx.HookSpec, op string, r refResult) {
 		}
 		if !samePhase {
 			continue
+		}
+		if a.Weight < b.Weight && (a.Weight < 0) != (b.Weight < 0) && b.Weight-a.Weight < 0 {
+			// the difference of the two weights does not fit an int64
+			c.Floor("order:weights-more-than-2^63-apart")
 		}
 		switch {
 		case a.Weight < b.Weight && a.Name > b.Name:
@@ -288,7 +296,7 @@ func check(c *core.Ctx, t *opspace.Transition) {
 	if op.DisableHooks {
 		outcome = "hooks-disabled"
 	}
-	c.Outcome(op.Kind + ":" + outcome)
+	c.Outcome(opName(hx.Op{Kind: op.Kind, KeepHistory: op.KeepHistory}) + ":" + outcome)
 	c.Floor("op:" + op.Kind)
 	orderFloors(c, hooks, op.Kind, r)
 	for i, tok := range exp {
@@ -324,6 +332,9 @@ func check(c *core.Ctx, t *opspace.Transition) {
 	}
 	if op.DisableHooks {
 		c.Floor("disabled")
+	}
+	if op.KeepHistory && r.Failed && r.Phase == "post" {
+		c.Floor("uninstall:keep-history-post-hook-failed")
 	}
 	seenRan := map[string]bool{}
 	for _, h := range r.Ran {
